@@ -16,7 +16,7 @@ RULE = ('Every map file shipped (all files the index names plus the other map-sh
 ASSUMPTIONS = ['a syntax note that mentions a position beyond the elements its segment node defines is reported as information, not as ill-formed',
                'composite nodes report "<segment path>/" as their path; their addressability is judged through getnodebypath2(<segment path><refdes>)',
                'wrapper loops and loops whose first child is a loop have no qualifier of their own; distinguishability is judged on their entry segments']
-REQUIRED_COUNTERS = ['maps-loaded-with-debug-logging', 'path-lists-compared', 'maps-loaded', 'index-entries', 'nodes:loop', 'nodes:segment', 'nodes:element', 'nodes:composite', 'lookups:getnodebypath', 'lookups:getnodebypath2',
+REQUIRED_COUNTERS = ['lookups:second-sweep', 'maps-loaded-with-debug-logging', 'path-lists-compared', 'maps-loaded', 'index-entries', 'nodes:loop', 'nodes:segment', 'nodes:element', 'nodes:composite', 'lookups:getnodebypath', 'lookups:getnodebypath2',
                      'fingerprints-compared', 'data-element-refs', 'external-code-refs', 'tables:codesets-compared', 'tables:data-elements-compared', 'tables:external-refs-against-loaded-table']
 MIN_CASES = {'quick': 20000, 'thorough': 20000}
 SHARDS = {'quick': 16, 'thorough': 16}
@@ -237,6 +237,7 @@ def check_map(ctx, fn, indexed, DE, CODES, map_dir):
     # --- addressability on the resource-loaded tree
     mode, m = loaded[0]
     seen_paths = {}
+    wrong_first = set()
     path_count = {}
     for node in m.loop_segment_iterator():
         if not node.is_map_root():
@@ -259,6 +260,7 @@ def check_map(ctx, fn, indexed, DE, CODES, map_dir):
                 ctx.viol('map:%s:raises-%s:%s' % (name, type(ex).__name__, 'loop' if node.is_loop() else 'segment'), 'a node cannot be fetched by the path it reports', dict(case, path=p), {'exc': repr(ex)[:200]})
                 continue
             if got is not node:
+                wrong_first.add(id(node))
                 ctx.viol('map:%s:wrong-node:%s:%s' % (name, fn, node.id), 'fetching a node by its own path returns another node', dict(case, path=p),
                          {'got': got.get_path() if got is not None else None})
         nchecked += 1
@@ -290,6 +292,20 @@ def check_map(ctx, fn, indexed, DE, CODES, map_dir):
                         except Exception as ex:
                             ctx.viol('map:own-path:raises-%s:element' % type(ex).__name__, 'an element cannot be fetched by the path it reports for itself', dict(case, path=repr(tn.id)), {'exc': repr(ex)[:200]})
                     nchecked += 1
+    # --- a second sweep over the same map object, deepest nodes first: a lookup is a function of the path, not of the lookups made before it
+    nodes2 = [nd for nd in m.loop_segment_iterator() if not nd.is_map_root() and path_count.get(nd.get_path(), 0) == 1 and not (nd.is_loop() and refmap_seglike(nd.id))
+              and id(nd) not in wrong_first]          # (what the first sweep already reported is not reported again)
+    for nd in sorted(nodes2, key=lambda x: -x.get_path().count('/')):
+        ctx.count('lookups:second-sweep')
+        try:
+            got = m.getnodebypath2(nd.get_path())
+        except Exception as ex:
+            ctx.viol('map:getnodebypath2:second-sweep:raises-%s' % type(ex).__name__, 'a node that was fetched by its path before cannot be fetched again', dict(case, path=nd.get_path()), {'exc': repr(ex)[:200]})
+            continue
+        if got is not nd:
+            ctx.viol('map:getnodebypath2:second-sweep:wrong-node', 'fetching a node by its own path returns another node once other paths have been looked up', dict(case, path=nd.get_path()),
+                     {'got': got.get_path() if got is not None else None})
+            break
     return nchecked, sigs
 
 
